@@ -230,6 +230,10 @@ def sampler_scenarios(seed, per_group, faults="none"):
                 sc["faults"] = [[rnd.randrange(chains), rnd.randrange(3, 60), rnd.choice(NONFATAL)]
                                 for _ in range(rnd.choice([1, 2, 4]))]
                 sc["script"] = user_script(rnd, end="wait", allow_pause=False)
+                if r % 2 == 0:
+                    # the very first evaluation of a chain misbehaves: its first initialisation attempt fails, the next one
+                    # succeeds, and the chain must go on to sample
+                    sc["faults"].append([r % chains, 0, NONFATAL[(r // 2) % len(NONFATAL)]])
             else:
                 kind = rnd.choice(["fatal", "fatal", "storage", "init", "model", "two"])
                 c = rnd.randrange(chains)
